@@ -198,7 +198,7 @@ class BNCase:
             if sp.get("shapes"):          # the batch size changes from one forward to the next
                 shape = tuple(sp["shapes"][nf % len(sp["shapes"])])
             x = env.arr("x%d" % nf, shape)
-            xt = Tn(x, requires_grad=True)
+            xt = Tn(x, requires_grad=not sp.get("constant_input"))      # round k: raw data as input - nothing on the path requires grad
             before = (snapshot(m.running_mean.data), snapshot(m.running_var.data)) if sp["track"] else None
             y = m(xt)
             if sp.get("grads"):
@@ -333,6 +333,11 @@ def enumerate_specs(tier):
         specs.append({"kind": "bn", "shape": shape, "default": True, "affine": True, "track": True, "momentum": 0.1, "history": "fef"})
     specs.append({"kind": "bn", "shape": [2, 1], "shapes": [[2, 1], [3, 1]], "affine": True, "track": True, "momentum": "s", "history": "ffef"})
     specs.append({"kind": "bn", "shape": [3, 1], "shapes": [[3, 1], [2, 1]], "affine": False, "track": True, "momentum": None, "history": "ff"})
+    # round k: the layer applied to raw data (input without requires_grad); with affine=False nothing the output depends on requires
+    # grad - the running statistics move all the same, once per training forward
+    for shape, affine, mom in (([2, 1], False, "s"), ([2, 2], False, None), ([2, 1, 2], False, "s"), ([2, 1], True, "s"), ([2, 1, 1, 2], False, 1.0)):
+        specs.append({"kind": "bn", "shape": shape, "affine": affine, "track": True, "momentum": mom,
+                      "history": "ff" if mom is None else "fef", "constant_input": True})
     return specs
 
 
